@@ -259,7 +259,7 @@ def main_c15(tier):
                         # temp names are random: compare by directory + role
                         def role(p):
                             b = os.path.basename(p)
-                            return os.path.dirname(p) + '/' + ('.tmp' if b.startswith('.tmp-') else b)
+                            return os.path.dirname(p) + '/' + (b if (p in sc.new or not os.path.dirname(p).startswith(sc.skilldir)) else '.tmp')
                         got = collections.Counter((m_, role(p)) for m_, p in hit_targets)
                         exp = collections.Counter((m_, role(p)) for m_, p in want)
                         for key in exp:
